@@ -14,6 +14,7 @@ EXPLANATION = ("For every LdapConn method with a same-named Ldap method: the bod
 TRUSTED = ['tokio current-thread runtime block_on returns the future\'s output']
 UNDECIDED = ['behaviour of the private current-thread runtime (tokio)']
 ASSUMPTIONS = []
+CONFIGS = ['default', 'rustls', 'gssapi']      # the `sync` feature is off in the no-default-features configuration
 
 SYNC = 'ldap3::sync::LdapConn::'
 ASYNC = 'ldap3::ldap::Ldap::'
